@@ -167,11 +167,16 @@ def calls(key: str, rng, C, n: int):  # noqa: C901
         for m, act, until, dur in fixed:
             exp = _mode_expect(m, act, until, dur, "active")
             yield (lambda m=m, act=act, until=until, dur=dur: C.set_dhw_mode(CTL, mode=m, active=act, until=until, duration=dur)), exp, f"mode={m!r} active={act!r} until={until} dur={dur}"
+        for m in (None, "follow_schedule", "advanced_override", "permanent_override", "countdown_override", "temporary_override"):
+            for until in (None, dtms(rng, 1)[0]):
+                for dur in (None, 0, 60):
+                    exp = _mode_expect(m, True, until, dur, "active")
+                    yield (lambda m=m, until=until, dur=dur: C.set_dhw_mode(CTL, mode=m, active=True, until=until, duration=dur)), exp, f"mode={m!r} active=True until={until} dur={dur}"
         for _ in range(n * 3):
             m = rng.choice(modes)
             act = rng.choice((None, True, False, 1, 0))
             until = rng.choice([None, None] + dtms(rng, 1))
-            dur = rng.choice((None, None, 1, 60, 1440, 0xFFFFFE, 0x1000000, -1))
+            dur = rng.choice((None, None, 0, 1, 60, 1440, 0xFFFFFE, 0x1000000, -1))
             exp = _mode_expect(m, act, until, dur, "active")
             yield (lambda m=m, act=act, until=until, dur=dur: C.set_dhw_mode(CTL, mode=m, active=act, until=until, duration=dur)), exp, f"mode={m!r} active={act!r} until={until} dur={dur}"
     elif key in (" I|1FC9", " W|1FC9"):
@@ -203,12 +208,18 @@ def calls(key: str, rng, C, n: int):  # noqa: C901
         yield from zone_rq(C.get_zone_mode)
     elif key == " W|2349":
         modes = [None, 0, 1, 2, 3, 4, "00", "01", "02", "03", "04", "follow_schedule", "advanced_override", "permanent_override", "countdown_override", "temporary_override", 5, "bogus"]
+        for m in (None, "follow_schedule", "advanced_override", "permanent_override", "countdown_override", "temporary_override"):
+            for until in (None, dtms(rng, 1)[0]):
+                for dur in (None, 0, 60):
+                    exp = _mode_expect(m, 19.5, until, dur, "setpoint")
+                    exp["zone_idx"] = ("idx", "01")
+                    yield (lambda m=m, until=until, dur=dur: C.set_zone_mode(CTL, "01", mode=m, setpoint=19.5, until=until, duration=dur)), exp, f"'01' mode={m!r} sp=19.5 until={until} dur={dur}"
         for _ in range(n * 4):
             i = rng.choice(idxs[:6])
             m = rng.choice(modes)
             sp = rng.choice([None] + temps(rng, 5, 35, 2) + [327.68])
             until = rng.choice([None, None] + dtms(rng, 1))
-            dur = rng.choice((None, None, 1, 60, 1440, 0xFFFFFE, 0x1000000, -1))
+            dur = rng.choice((None, None, 0, 1, 60, 1440, 0xFFFFFE, 0x1000000, -1))
             exp = _mode_expect(m, sp, until, dur, "setpoint")
             exp["zone_idx"] = ("idx", i)
             yield (lambda i=i, m=m, sp=sp, until=until, dur=dur: C.set_zone_mode(CTL, i, mode=m, setpoint=sp, until=until, duration=dur)), exp, f"{i!r} mode={m!r} sp={sp} until={until} dur={dur}"
@@ -244,6 +255,8 @@ def calls(key: str, rng, C, n: int):  # noqa: C901
                 d2 = d.replace(second=rng.randint(0, 59))
                 exp = {"datetime": d2.isoformat(timespec="seconds"), "is_dst": (lambda v, dst=dst: bool(v) == dst)}
                 yield (lambda d2=d2, dst=dst: C.set_system_time(CTL, d2, is_dst=dst)), exp, f"{d2} dst={dst}"
+                txt = d2.isoformat(timespec="seconds")  # the documented alternative form of the argument
+                yield (lambda txt=txt, dst=dst: C.set_system_time(CTL, txt, is_dst=dst)), exp, f"{txt!r} (str) dst={dst}"
     elif key == "RQ|3220":
         for m in list(range(256)) + ["00", "19", "FF", 256, -1]:
             yield (lambda m=m: C.get_opentherm_data("10:048122", m)), {"msg_id": (lambda v, m=m: v == (m if isinstance(m, int) else int(m, 16)))}, f"msg_id={m!r}"
